@@ -220,10 +220,11 @@ class Continuous(Harness):
             else:
                 o = new_order(g, str(i), is_buy=is_buy, market=case["kinds"][i] == "1", price_lo=0)
             vol = o.volume
+            submitted = o.price
             log = m._add_order(o)
             price = log.price          # the accepted (tick-rounded) limit
             rec = {"id": log.order_id, "is_buy": is_buy, "is_market": case["kinds"][i] == "1",
-                   "price": price, "time": m.get_time(), "volume": vol}
+                   "price": price, "time": m.get_time(), "volume": vol, "submitted": submitted}
             resting_prices = [a["price"] for a in acc if not a["is_market"]]
             acc.append(rec)
             pre[rec["id"]] = pre.get(rec["id"], 0)
@@ -231,6 +232,15 @@ class Continuous(Harness):
             for x in logs:
                 g.observe(x.price)
                 g.observe(x.volume)
+                if "C01" in self.props and case.get("real"):
+                    # the limit the agent submitted (before tick rounding) is honoured as well
+                    for a in acc:
+                        if a["id"] == x.buy_order_id and a["is_buy"]:
+                            g.require(x.price <= a["submitted"], "C01.price<=submitted-buy-limit",
+                                      f"buy order {a['id']} submitted with limit {a['submitted']} filled at {x.price}")
+                        if a["id"] == x.sell_order_id and not a["is_buy"]:
+                            g.require(x.price >= a["submitted"], "C01.price>=submitted-sell-limit",
+                                      f"sell order {a['id']} submitted with limit {a['submitted']} filled at {x.price}")
             filled = mon.check_round(m, acc, logs, lg, dict(pre), incoming=rec["id"],
                                      resting_prices=resting_prices)
             for a in acc:
